@@ -491,6 +491,77 @@ def if_rule(run, quick):
     run.extra["switch_calls_checked_against_the_rule"] = len(coq_cases)
 
 
+def nested_rule(run, quick):
+    """a call whose arguments hold flat calls to other templates against Model.FlatCall.nested_result
+    (c04_calls_in_arguments_are_expanded_in_the_callers_frame)."""
+    rng = run.rng
+    cases = []
+    for _ in range(400 if quick else 8000):
+        def body():
+            parts = []
+            for _ in range(rng.randint(0, 5)):
+                r = rng.random()
+                parts.append(rng.choice(FLAT_TEXT) if r < 0.5 else
+                             ("{{{%s}}}" % rng.choice(FLAT_KEYS) if r < 0.8 else "{{{%s|%s}}}" % (rng.choice(FLAT_KEYS), rng.choice(FLAT_DEFAULTS))))
+            return "".join(parts)
+        libn = [["O", body(), False]] + [[nm, body(), False] for nm in ("I", "J") if rng.random() < 0.85]
+
+        def inner():
+            nm = rng.choice(["i", "j", "I", "nosuch"])
+            return "{{" + "|".join([nm] + [rng.choice(FLAT_ARGS) for _ in range(rng.randint(0, 3))]) + "}}"
+
+        def arg():
+            r = rng.random()
+            if r < 0.3:
+                return rng.choice(FLAT_ARGS)
+            pieces = [rng.choice(["", " ", "x", "\n", "a b", "*"])]
+            for _ in range(rng.randint(1, 2)):
+                pieces += [inner(), rng.choice(["", " ", "y", "\n"])]
+            v = "".join(pieces)
+            if r < 0.55:
+                return rng.choice(["k", " k ", "2", "a b", "q"]) + rng.choice(["=", " = "]) + v
+            return v
+        page = "{{" + "|".join(["o"] + [arg() for _ in range(rng.randint(1, 4))]) + "}}"
+        cases.append({"lib": libn, "page": page, "opts": {}, "title": "Tt"})
+    res = lib.run_impl("expandlib", cases, shards=lib.NCPU)
+    coq_cases, idx = [], []
+    for i, (c, r) in enumerate(zip(cases, res)):
+        run.count({"nested": c["lib"], "page": c["page"]}, c["page"].count("{{") >= 3, "nested")
+        if r.get("outcome") != "ok":
+            run.property_failure("nested:%s:%s" % (r.get("outcome"), r.get("exc", "")), "expand() did not return normally: %r" % (r,), c)
+            continue
+        pa = r["page_ast"]
+        if len(pa) != 1 or isinstance(pa[0], int) or pa[0][0] != "T" or any(not isinstance(y, int) for y in pa[0][1][0]):
+            run.correspondence_break("a generated nested call was not read as one call", c, page_ast=pa)
+            continue
+        # names as the expander sees them (blanks around a written name are not part of it)
+        def norm(seq):
+            return [x if isinstance(x, int) else ["T", [[ord(ch) for ch in "".join(chr(y) for y in x[1][0]).strip()]] + x[1][1:]]
+                    if x[0] == "T" and all(isinstance(y, int) for y in x[1][0]) else x for x in seq]
+        args = [norm(a) for a in pa[0][1][1:]]
+        coq_cases.append("(%s, %s, %s)" % (G.coq_lib([[t[0], t[1], t[2]] for t in r["lib_ast"]]), clist(args, G.coq_enc, "enc"), cstr(r["out"])))
+        idx.append(i)
+    imports = IMPORTS + ["Model.FlatCall"]
+    ty = "list tpl * list enc * str"
+    outside, errs = lib.coq_eval_failing("c04n0", imports, ty, coq_cases, "fun '(l, a, o) => nested_ok parser_functions l [111] a", chunk=300)
+    for e in errs:
+        run.correspondence_break("model evaluation failed (nested calls)", None, error=e)
+    for b in outside:
+        run.correspondence_break("a generated nested call is outside the fragment of Model.FlatCall.nested_ok", cases[idx[b]])
+    bad, errs = lib.coq_eval_failing("c04n", imports, ty, coq_cases, "fun '(l, a, o) => str_eqb (codes (nested_result l [111] a)) o", chunk=300)
+    for e in errs:
+        run.correspondence_break("model evaluation failed (nested rule)", None, error=e)
+    for b in bad:
+        if b in outside:
+            continue
+        c = cases[idx[b]]
+        want = lib.coq_eval_term(imports, "(fun '(l, a, o) => codes (nested_result l [111] a)) (%s)" % coq_cases[b])
+        run.property_failure("c04:nested-call-differs-from-the-transclusion-rule",
+                             "expand(%r) with templates %r gave %r; the rule (Model.FlatCall.nested_result) gives code points %s"
+                             % (c["page"], c["lib"], res[idx[b]]["out"], " ".join(want.split())[:300]), c)
+    run.extra["nested_calls_checked_against_the_rule"] = len(coq_cases)
+
+
 def run(run):
     run.rule = ("acyclic template libraries (<=5 templates, bodies from the expansion grammar: text atoms with interior/"
                 "leading/trailing blanks and newlines, {{{n}}}, {{{n|default}}}, positional/named/numeric-named/duplicate "
@@ -522,6 +593,7 @@ def run(run):
     run_cases(run, cases, "acyclic")
     flat_rule(run, run.tier == "quick")
     if_rule(run, run.tier == "quick")
+    nested_rule(run, run.tier == "quick")
     run.extra["traces_validated_against_impl"] = run.evaluations
 
 
